@@ -171,6 +171,9 @@ func decidePrograms(r *core.Run, check string, progs []*gen.Program, f func(idx 
 			}
 			if ref.TimedOut {
 				r.Inconclusive("reference_timeout")
+				if dbg := os.Getenv("VERIF_DEBUG"); dbg != "" {
+					os.WriteFile(dbg+"/timeout_"+fmt.Sprint(lo+i)+".go.txt", []byte(progs[lo+i].Source()), 0o644)
+				}
 				return
 			}
 			f(lo+i, progs[lo+i], ref)
